@@ -255,6 +255,9 @@ type ctx struct {
 	params map[*types.Var]int // param object -> index (-1 receiver)
 	inst   map[int]*gtype     // params that are guarded instances
 	locals map[*types.Var]oset
+	// function-typed parameters bound to a closure of the caller (index -> term of the closure body,
+	// produced in the CALLER's context): q.withLock(func() { ... })
+	fnArgs map[int]func() string
 	// structural translation state (only for locking functions)
 	structural bool
 	defers     []string // Coq terms of deferred actions, in push order
@@ -714,9 +717,21 @@ func (c *ctx) lockOp(call *ast.CallExpr) string {
 	if !isRWMutex(c.typeOf(se.X)) {
 		return ""
 	}
-	// se.X must be <instance>.mu
+	// se.X must be <instance>.mu ...
 	inner, ok := se.X.(*ast.SelectorExpr)
 	if !ok {
+		// ... or a local alias of it: mu := &q.mu; mu.Lock()
+		if id, isId := ast.Unparen(se.X).(*ast.Ident); isId {
+			if v, isVar := c.info().ObjectOf(id).(*types.Var); isVar {
+				if _, isParam := c.params[v]; !isParam {
+					for o := range c.locals[v] {
+						if _, ok := c.inst[o.param]; ok {
+							return "A" + name
+						}
+					}
+				}
+			}
+		}
 		return ""
 	}
 	os := c.origins(inner.X)
@@ -788,6 +803,10 @@ func (c *ctx) call(call *ast.CallExpr) string {
 	// call of a local closure variable whose literal we know
 	if id, ok := call.Fun.(*ast.Ident); ok && callee == nil {
 		if v, ok := c.info().ObjectOf(id).(*types.Var); ok {
+			if pi, isParam := c.params[v]; isParam && c.fnArgs != nil && c.fnArgs[pi] != nil {
+				ps = append(ps, "(SCall "+c.fnArgs[pi]()+")")
+				return seq(ps)
+			}
 			if fl := c.closureOf(v); fl != nil {
 				ps = append(ps, "(SCall "+c.closureBody(fl)+")")
 				return seq(ps)
@@ -842,6 +861,7 @@ func (c *ctx) call(call *ast.CallExpr) string {
 			sub.depth = c.depth + 1
 			sub.structural = true
 			sub.spawned = c.spawned
+			sub.fnArgs = c.closureArgs(call, sig)
 			body := sub.function()
 			// effects of the callee seen from here
 			for e := range sub.effs {
@@ -884,6 +904,9 @@ func (c *ctx) call(call *ast.CallExpr) string {
 	if s.ext {
 		c.ext = true
 		terms = append(terms, act("AExt"))
+	}
+	for _, th := range c.closureArgs(call, sig) {
+		terms = append(terms, "(SCall "+th()+")")
 	}
 	if len(terms) > 0 {
 		// any number of these effects, in any order
@@ -933,6 +956,49 @@ func (c *ctx) closureBody(fl *ast.FuncLit) string {
 	body = seq([]string{body, c.deferredTerm()})
 	c.defers = saved
 	return body
+}
+
+// closureArgs: the arguments of call that are closures of this function (a literal, or a local variable
+// holding one), by parameter index; each as a thunk that translates the closure body in THIS context.
+func (c *ctx) closureArgs(call *ast.CallExpr, sig *types.Signature) map[int]func() string {
+	var out map[int]func() string
+	for i, a := range call.Args {
+		var fl *ast.FuncLit
+		switch x := ast.Unparen(a).(type) {
+		case *ast.FuncLit:
+			fl = x
+		case *ast.Ident:
+			if v, ok := c.info().ObjectOf(x).(*types.Var); ok {
+				if _, isParam := c.params[v]; !isParam {
+					fl = c.closureOf(v)
+				} else if pi := c.params[v]; c.fnArgs != nil && c.fnArgs[pi] != nil {
+					// a bound parameter handed on
+					if out == nil {
+						out = map[int]func() string{}
+					}
+					idx := i
+					if idx >= sig.Params().Len() {
+						idx = sig.Params().Len() - 1
+					}
+					out[idx] = c.fnArgs[pi]
+					continue
+				}
+			}
+		}
+		if fl == nil {
+			continue
+		}
+		if out == nil {
+			out = map[int]func() string{}
+		}
+		idx := i
+		if idx >= sig.Params().Len() {
+			idx = sig.Params().Len() - 1
+		}
+		lit := fl
+		out[idx] = func() string { return c.closureBody(lit) }
+	}
+	return out
 }
 
 func (c *ctx) closureOf(v *types.Var) *ast.FuncLit {
